@@ -122,7 +122,7 @@ pub fn run_check(ctx: &Ctx, replay: Option<&str>, only: Option<&str>) -> i32 {
     }
     // watchdog: a hang is "inconclusive" (exit 2), never a violation
     let limit = std::env::var("VERIF_WATCHDOG_S").ok().and_then(|s| s.parse().ok()).unwrap_or(match ctx.tier {
-        Tier::Quick => 1500u64,
+        Tier::Quick => 900u64,
         Tier::Thorough => 6 * 3600,
     });
     {
